@@ -574,6 +574,25 @@ fn corner_cases() -> Vec<Case> {
         c.layout = layout;
         v.push(c);
     }
+    // two DIFFERENT pictures in the same memory layout that agree on the first rows and on the left part
+    // (whatever prefix of the buffer a cache key might look at), drawn one after the other on the
+    // long-lived handler: the second must come out as itself
+    for layout in 0..5u8 {
+        for (w, h) in [(9usize, 12usize), (16, 7)] {
+            let a: Vec<[u8; 4]> = (0..w * h).map(|i| [((i % w) * 25 % 256) as u8, ((i / w) * 20 % 256) as u8, 60, 255]).collect();
+            let mut b = a.clone();
+            for y in 2..h {
+                for x in w / 2 + 1..w {
+                    b[y * w + x] = [250, (x * 20) as u8, (y * 20) as u8, 255];
+                }
+            }
+            for px in [a, b] {
+                let mut c = mk(&format!("pair-layout{layout}"), w, h, px, None, None);
+                c.layout = layout;
+                v.push(c);
+            }
+        }
+    }
     v
 }
 
@@ -715,6 +734,14 @@ fn pre_reduce(c: [u8; 4]) -> [u8; 4] {
     [red, green, blue, alpha]
 }
 
+/// `erase` (a no-op for sixel: the picture is overwritten by what is drawn next); whatever it does, it
+/// must not disturb later draws.  Returns what it wrote.
+fn erase(handler: &mut SixelImageHandler, img: &Image, pos: Option<Position>) -> Vec<u8> {
+    let mut out = Vec::new();
+    let _ = guarded(|| handler.erase(&mut out, img, pos));
+    out
+}
+
 /// `(palette, qimg)` as `draw` obtains them — built from the RAW generated pixels, not through the view /
 /// `map` / `get` of the image under test: the first `th` rows of the visible pixels, composited over the
 /// background when not opaque, channel-reduced, as a dense image; then the crate's `quantize(256, true, bg)`
@@ -798,11 +825,13 @@ fn run_case(out: &mut Out, shared: &mut Shared, case: &Case, full_lines: bool) {
     let th = vh / 6 * 6; // declared height
     let mut handler = SixelImageHandler::new(bg);
     let first = draw(&mut handler, &img);
+    // draw, erase (at a position), draw again: the same bytes
+    erase(&mut handler, &img, Some(Position::new(0, 0)));
     let second = draw(&mut handler, &img);
     let bytes = match (&first, &second) {
         (Ok(a), Ok(b)) => {
             if a != b {
-                out.fail("second draw of the same image on one handler emits different bytes", input.clone(), json!(hex(a)), json!(hex(b)));
+                out.fail("second draw of the same image on one handler (after an erase) emits different bytes", input.clone(), json!(hex(a)), json!(hex(b)));
             }
             a.clone()
         }
@@ -1065,6 +1094,9 @@ fn run_session(out: &mut Out, seed: u64, count: usize, stride: usize, limit: usi
         }
         if (i + 1) % stride == 0 || i + 1 == count {
             for (j, first) in firsts.iter().enumerate() {
+                if j % 3 != 2 {
+                    erase(&mut handler, &images[j], if j % 3 == 0 { Some(Position::new(j, 1)) } else { None });
+                }
                 let again = draw(&mut handler, &images[j]).unwrap_or_default();
                 redraws += 1;
                 if &again != first {
@@ -1362,6 +1394,22 @@ fn run_eviction_session(out: &mut Out, seed: u64, budget: usize, ops: usize) {
             Image::from_parts(data.into(), Shape::from(Size::new(h, w)))
         })
         .collect();
+    // pairs of DIFFERENT images in one strided layout (transposed store / column stride 2) that agree on
+    // the left part and on the first rows: the cache key has to tell them apart as well
+    let mut pool = pool;
+    for layout in [2u8, 4, 2, 4] {
+        let (w, h) = (12 + rng.below(20) as usize, 12 + rng.below(20) as usize);
+        let a = gen_image(&mut rng, w, h, 5, false);
+        let mut b = a.clone();
+        for y in 3..h {
+            for x in w / 2 + 2..w {
+                b[y * w + x] = [255 - b[y * w + x][0], 17, b[y * w + x][2] ^ 0x80, 255];
+            }
+        }
+        for px in [a, b] {
+            pool.push(Case { w, h, px, bg: None, crop: None, layout, tag: "pool-strided".into() }.image());
+        }
+    }
     // `Surface::hash` is used below only to recognise the entries the hook shows: it has to tell the pool
     // images apart (a cross-check of the helper; the draws themselves are judged on pictures and bytes)
     {
@@ -1447,6 +1495,12 @@ fn run_eviction_session(out: &mut Out, seed: u64, budget: usize, ops: usize) {
             pending_repeat = Some(i);
         }
         last[i] = Some(bytes);
+        // erase is an operation of the session too (with and without a position): the cache stays as it is
+        if rng.chance(1, 5) {
+            let pos = if rng.chance(1, 2) { Some(Position::new(rng.below(40) as usize, rng.below(80) as usize)) } else { None };
+            let j = if rng.chance(1, 2) { i } else { rng.below(pool.len() as u64) as usize };
+            erase(&mut handler, &pool[j], pos);
+        }
     }
     let (size, content) = cache_state(&handler);
     let content: Vec<String> = content.iter().map(|(k, l)| format!("{k}:{l}")).collect();
@@ -1501,9 +1555,16 @@ fn main() {
             // failures of the cache need a history: an image of the same shape with other pixels first
             let mut shared = Shared::new();
             let mut sibling = case.clone();
-            for p in sibling.px.iter_mut() {
-                *p = [255 - p[0], 255 - p[1], p[2] ^ 0x55, 255];
+            // (it agrees with the image on the first rows and on the left part, so that a cache key that
+            // looks only at the shape or at a prefix of the buffer confuses the two)
+            let (sw, sh) = (sibling.w, sibling.h);
+            let all = sw < 4 || sh < 4;
+            for (i, p) in sibling.px.iter_mut().enumerate() {
+                if all || (i / sw >= 2 && i % sw > sw / 2) {
+                    *p = [255 - p[0], 255 - p[1], p[2] ^ 0x55, 255];
+                }
             }
+            sibling.layout = case.layout;
             let _ = draw(shared.handler(case.bg), &sibling.image());
             run_case(&mut out, &mut shared, &case, true);
         }
